@@ -195,5 +195,53 @@ func init() {
 				}
 			}
 		}
+		// chains whose HEAD condition is a negation (if (!c1()) ... else if (c2()) ... else ...), with and
+		// without else-ifs and else: the first truthy branch, conditions evaluated up to it and no further
+		for n := 1; n <= 3; n++ {
+			for hasElse := 0; hasElse < 2; hasElse++ {
+				for mask := 0; mask < 1<<n; mask++ {
+					binds := []Bind{}
+					var sb strings.Builder
+					sb.WriteString("<%= ")
+					for i := 0; i < n; i++ {
+						ret := vBool(mask&(1<<i) != 0)
+						if (i+mask)%2 == 1 {
+							ret = map[bool]VD{true: vStr("x"), false: vNil()}[mask&(1<<i) != 0]
+						}
+						binds = append(binds, Bind{fmt.Sprintf("c%d", i+1), vGo(101, vInt(i+1), ret)})
+						if i == 0 {
+							sb.WriteString(fmt.Sprintf("if (!c1()) { %%>B1<%% }"))
+						} else {
+							sb.WriteString(fmt.Sprintf(" else if (c%d()) { %%>B%d<%% }", i+1, i+1))
+						}
+					}
+					if hasElse == 1 {
+						sb.WriteString(" else { %>E<% }")
+					}
+					sb.WriteString(" %>")
+					// branch i is truthy when: i == 0 -> c1 falsy; else ci truthy
+					wantOut, wantLog := "", n
+					for i := 0; i < n; i++ {
+						truthy := mask&(1<<i) != 0
+						if i == 0 {
+							truthy = !truthy
+						}
+						if truthy {
+							wantOut, wantLog = fmt.Sprintf("B%d", i+1), i+1
+							break
+						}
+					}
+					if wantOut == "" && hasElse == 1 {
+						wantOut = "E"
+					}
+					c := RCase{Tmpl: sb.String(), Binds: binds}
+					o := e.addRenderCase("negated-head", c)
+					e.Distinct(c.Tmpl + fmt.Sprint(mask))
+					if o.Class != "OK" || o.Out != wantOut || len(o.Log) != wantLog {
+						e.Violate("c07-chain", fmt.Sprintf("chain %q with truth mask %b: got %q (%s), %d conditions evaluated; want %q and exactly conditions 1..%d", c.Tmpl, mask, o.Out, o.Class, len(o.Log), wantOut, wantLog), map[string]interface{}{"case": c, "observed": o})
+					}
+				}
+			}
+		}
 	})
 }
